@@ -229,6 +229,17 @@ def check_long_keys(ctx):
                         ctx.outcome('ok')
 
 
+_ZONE = []
+
+
+def fold_twin(fold):
+    import datetime
+    import zoneinfo
+    if not _ZONE:
+        _ZONE.append(zoneinfo.ZoneInfo('Europe/London'))
+    return datetime.datetime(2021, 10, 31, 1, 30, tzinfo=_ZONE[0], fold=fold)
+
+
 def check_twins(ctx):
     """Equal-valued but distinct values side by side (Decimal('2.5') and
     Decimal('2.50'), 1 and True and 1.0): every entry keeps its own
@@ -236,7 +247,10 @@ def check_twins(ctx):
     p = lib.pamqp()
     groups = [[A.D('2.5'), A.D('2.50'), A.D('2.500')],
               [1, True, 1.0, A.D('1')], [0, False, 0.0, A.D('0.00')],
-              ['', bytearray(b'')], [A.dt(5), A.dt(5, None)]]
+              ['', bytearray(b'')], [A.dt(5), A.dt(5, None)],
+              [0.0, -0.0], [fold_twin(0), fold_twin(1)],
+              [A.dt(1600000000), A.dt(1600000000).astimezone(
+                  A.FIXED_OFFSETS[0])]]
     for vals in groups:
         for r in (2, len(vals)):
             for order in itertools.permutations(range(len(vals)), r):
